@@ -235,3 +235,29 @@ Proof.
   rewrite getZ_0, getZ_1, getZ_2, getZ_3, getZ_4. cbn [nth]. de_rows Hu.
   apply lin5_eq; congruence.
 Qed.
+
+(* ---------- the property theorems, restated about the GENERATED definitions ---------- *)
+From TF Require Import DEOpsProofs.
+Open Scope Z_scope.
+
+Theorem src_clamp_in_box a l r : box_ok l r -> length a = length l -> in_box l r (py_bounds_control a l r).
+Proof. intros Hb Hl. rewrite code_bounds_control. now apply clamp_in_box. Qed.
+
+Theorem src_mean_in_box a parent l r : length a = length l -> in_box l r parent ->
+  in_box l r (py_bounds_control_mean a parent l r).
+Proof. intros Hl Hp. rewrite code_bounds_control_mean. now apply mean_in_box. Qed.
+
+Theorem src_binomial individ mutant CR ds child ds' :
+  valid_draws ds -> (0 < length individ)%nat ->
+  py_binomial individ mutant CR ds = Some (child, ds') ->
+  length child = length individ /\
+  exists j, (j < length individ)%nat /\ vnth child j = vnth mutant j /\
+    forall i, (i < length individ)%nat -> vnth child i = vnth mutant i \/ vnth child i = vnth individ i.
+Proof. intros Hv Hl H. rewrite code_binomial in H. exact (binomial_structure individ mutant CR ds child ds' Hv Hl H). Qed.
+
+Theorem src_best_1_donor cur best pop F ds d ds' :
+  valid_draws ds -> (2 <= length pop)%nat -> uniform_rows (length best) pop -> length cur = length best ->
+  py_best_1 cur best pop F ds = Some (d, ds') ->
+  exists rs, length rs = 2%nat /\ NoDup rs /\
+    Forall (fun v => 0 <= v < Z.of_nat (length pop)) rs /\ d = donor_of 0 cur best pop F rs.
+Proof. intros Hv Hk Hu Hc H. rewrite code_best_1 in H by auto. exact (donor_formula 0 cur best pop F ds d ds' Hv H). Qed.
